@@ -399,6 +399,9 @@ def run(ctx):
             # t / sampling_interval beyond 2^31 (interval around 1 ns, a few steps of 1 s), grid and graph
             kw = {"huge_ratio": True, "space_kind": ["grid", "graph"][(i // 25) % 2] if i % 25 == 7 else ["graph", "grid"][(i // 25) % 2]}
             option = ["euler", "tauleap", "euler", "gillespie"][(i // 25) % 4] if i % 25 == 7 else "tauleap"
+        if i % 25 == 12:
+            kw = {"nearmiss": True}
+            option = ["euler", "tauleap"][(i // 25) % 2]
         jobs.append(make_job(rng, "s%d" % i, option, policy=policy, max_steps=max_steps, **kw))
     res = lc.run_jobs(jobs, kind="plain", chunk=ctx.n(10, 60), parallel=ctx.n(6, 8), stall=ctx.n(15, 40))
     ops, metas = [], []
